@@ -15,11 +15,28 @@ pub struct M {
     pub cols: usize,
     /// build the real object with a column-major matrix
     pub fortran: bool,
+    /// build the real object with negative strides: matrix and bias are stored mirrored and their axes inverted,
+    /// so they are equal to the plain ones as arrays
+    pub mirrored: bool,
 }
 
 impl M {
     /// column-major storage when `fortran` is set
     fn real_l(&self) -> AffFunc {
+        if self.mirrored {
+            let r = self.mat.len();
+            let mut a = Array2::<f64>::zeros((r, self.cols));
+            for i in 0..r {
+                for j in 0..self.cols {
+                    a[[r - 1 - i, self.cols - 1 - j]] = self.mat[i][j];
+                }
+            }
+            a.invert_axis(Axis(0));
+            a.invert_axis(Axis(1));
+            let mut b = Array1::from(self.bias.iter().rev().cloned().collect::<Vec<f64>>());
+            b.invert_axis(Axis(0));
+            return AffFunc::from_mats(a, b);
+        }
         if !self.fortran {
             return self.real();
         }
@@ -47,7 +64,7 @@ impl M {
         (self.mat.iter().map(|r| r.iter().map(|x| Q::from_f64(*x)).collect()).collect(), self.bias.iter().map(|x| Q::from_f64(*x)).collect())
     }
     fn json(&self) -> serde_json::Value {
-        json!({"mat": self.mat, "bias": self.bias, "column_major": self.fortran})
+        json!({"mat": self.mat, "bias": self.bias, "column_major": self.fortran, "negative_strides": self.mirrored})
     }
 }
 
@@ -77,7 +94,7 @@ pub fn mats(rows: usize, cols: usize, vals: &[f64], nz: usize) -> Vec<M> {
     for f in flat {
         let mat: Vec<Vec<f64>> = (0..rows).map(|i| f[i * cols..(i + 1) * cols].to_vec()).collect();
         let bias = f[rows * cols..].to_vec();
-        out.push(M { mat, bias, cols, fortran: false });
+        out.push(M { mat, bias, cols, fortran: false, mirrored: false });
     }
     out
 }
@@ -227,7 +244,9 @@ fn check_single(f: &M) -> CaseOut {
         }
         v
     };
-    for x in &pts {
+    // entries like 2^-600 next to ordinary ones: f64 evaluation is not exact there, only the structural checks apply
+    let extreme = f.mat.iter().flatten().any(|v| *v != 0.0 && (v.abs() < 2f64.powi(-100) || v.abs() > 2f64.powi(100)));
+    for x in pts.iter().filter(|_| !extreme) {
         out.add("evaluations", 1);
         let xq: Vec<Q> = x.iter().map(|t| Q::from_f64(*t)).collect();
         let exp: Vec<Q> = fm.iter().zip(fb.iter()).map(|(r, c)| &dot(r, &xq) + c).collect();
@@ -239,7 +258,7 @@ fn check_single(f: &M) -> CaseOut {
     }
     // apply_transpose: mat^T (y - bias)
     let ys: Vec<Vec<f64>> = (0..3).map(|s| (0..rows).map(|i| ((i + s) % 3) as f64 - 0.5).collect()).collect();
-    for y in &ys {
+    for y in ys.iter().filter(|_| !extreme) {
         out.add("evaluations", 1);
         let yq: Vec<Q> = y.iter().map(|t| Q::from_f64(*t)).collect();
         let d: Vec<Q> = yq.iter().zip(fb.iter()).map(|(a, b)| a - b).collect();
@@ -429,6 +448,20 @@ fn check_constructors(dim: usize) -> CaseOut {
 
 pub fn cases(tier: Tier) -> Vec<Case> {
     let mut v = vec![];
+    // entries whose square underflows (2^-600) or overflows (2^600): they are non-zero all the same
+    let (tiny, huge) = (2f64.powi(-600), 2f64.powi(600));
+    for e in [tiny, -tiny, huge] {
+        for (mat, cols) in [
+            (vec![vec![e]], 1usize),
+            (vec![vec![1.0, 0.0, e]], 3),
+            (vec![vec![0.0, e], vec![0.0, 0.0]], 2),
+            (vec![vec![e, 1.0], vec![-e, 0.0]], 2),
+            (vec![vec![0.0, 0.0, 1.0], vec![e, 0.0, 0.0]], 3),
+        ] {
+            let r = mat.len();
+            v.push(Case::Single(M { mat, bias: vec![0.0; r], cols, fortran: false, mirrored: false }));
+        }
+    }
     let vals = [1.0, -1.0, 2.0, 0.5];
     let (nz_single, nz_pair) = match tier { Tier::Quick => (4, 2), Tier::Thorough => (5, 2) };
     let shapes: Vec<(usize, usize)> = vec![(1, 1), (1, 2), (2, 1), (2, 2), (1, 3), (3, 1), (2, 3), (3, 2), (3, 3)];
@@ -438,6 +471,11 @@ pub fn cases(tier: Tier) -> Vec<Case> {
             if *r >= 2 && *c >= 2 && i % 3 == 0 {
                 let mut f = m.clone();
                 f.fortran = true;
+                v.push(Case::Single(f));
+            }
+            if *r * *c >= 2 && i % 3 == 1 {
+                let mut f = m.clone();
+                f.mirrored = true;
                 v.push(Case::Single(f));
             }
             v.push(Case::Single(m));
@@ -462,7 +500,7 @@ pub fn cases(tier: Tier) -> Vec<Case> {
         }
         // dense divisors for div / rem
         if a == b {
-            let dense = M { mat: (0..b.0).map(|i| (0..b.1).map(|j| [2.0, -1.0, 0.5, -2.0][(i + j) % 4]).collect()).collect(), bias: (0..b.0).map(|i| [1.0, -0.5, 2.0][i % 3]).collect(), cols: b.1, fortran: false };
+            let dense = M { mat: (0..b.0).map(|i| (0..b.1).map(|j| [2.0, -1.0, 0.5, -2.0][(i + j) % 4]).collect()).collect(), bias: (0..b.0).map(|i| [1.0, -0.5, 2.0][i % 3]).collect(), cols: b.1, fortran: false, mirrored: false };
             for f in &fa {
                 v.push(Case::Pair(f.clone(), dense.clone()));
             }
@@ -471,7 +509,7 @@ pub fn cases(tier: Tier) -> Vec<Case> {
         // dense matrices - in row-major and column-major storage, on either side
         let structured = |r: usize, c: usize| -> Vec<M> {
             let mut out = vec![];
-            let dense = |s: usize| M { mat: (0..r).map(|i| (0..c).map(|j| [2.0, -1.0, 0.5, 1.0, -2.0][(i * 2 + j + s) % 5]).collect()).collect(), bias: (0..r).map(|i| [1.0, -0.5, 0.0][(i + s) % 3]).collect(), cols: c, fortran: false };
+            let dense = |s: usize| M { mat: (0..r).map(|i| (0..c).map(|j| [2.0, -1.0, 0.5, 1.0, -2.0][(i * 2 + j + s) % 5]).collect()).collect(), bias: (0..r).map(|i| [1.0, -0.5, 0.0][(i + s) % 3]).collect(), cols: c, fortran: false, mirrored: false };
             out.push(dense(0));
             out.push(dense(1));
             if r == c {
@@ -479,7 +517,7 @@ pub fn cases(tier: Tier) -> Vec<Case> {
                     let mut m = vec![vec![0.0; c]; r];
                     for i in 0..r { m[i][i] = 1.0; }
                     if let Some((i, j, v)) = off { m[i][j] = v; }
-                    M { mat: m, bias: vec![bias; r], cols: c, fortran: false }
+                    M { mat: m, bias: vec![bias; r], cols: c, fortran: false, mirrored: false }
                 };
                 out.push(eye(None, 0.0));
                 out.push(eye(None, 1.0));
@@ -489,11 +527,11 @@ pub fn cases(tier: Tier) -> Vec<Case> {
                     out.push(eye(Some((r - 1, 0, 0.5)), 0.0));
                     let mut p = vec![vec![0.0; c]; r];
                     for i in 0..r { p[i][(i + 1) % c] = 1.0; }
-                    out.push(M { mat: p, bias: vec![0.0; r], cols: c, fortran: false });
+                    out.push(M { mat: p, bias: vec![0.0; r], cols: c, fortran: false, mirrored: false });
                 }
             }
             let mut all = out.clone();
-            for m in out { let mut f = m; f.fortran = true; all.push(f); }
+            for m in out { let mut f = m.clone(); f.fortran = true; all.push(f); let mut g = m; g.mirrored = true; all.push(g); }
             all
         };
         let sa = structured(a.0, a.1);
